@@ -344,3 +344,25 @@ Theorem C09_statement_same_pattern_sets : forall cat acts acts' nots nots',
   stmt_expanded cat acts nots = stmt_expanded cat acts' nots'.
 Proof. exact stmt_expanded_same_sets. Qed.
 Print Assumptions C09_statement_same_pattern_sets.
+
+(* a policy document's allowed-action and IAM-action queries depend only on the SET of statements: statement order and
+   repeated statements are irrelevant, adding a statement can only add actions, a non-Allow statement allows nothing *)
+Theorem C09_document_statement_order_irrelevant : forall cat ss ss', Permutation ss ss' ->
+  allowed_actions cat ss = allowed_actions cat ss' /\ iam_actions cat ss = iam_actions cat ss'.
+Proof. exact doc_perm. Qed.
+Print Assumptions C09_document_statement_order_irrelevant.
+
+Theorem C09_document_same_statements : forall cat ss ss', incl ss ss' -> incl ss' ss ->
+  allowed_actions cat ss = allowed_actions cat ss' /\ iam_actions cat ss = iam_actions cat ss'.
+Proof. exact doc_same_statements. Qed.
+Print Assumptions C09_document_same_statements.
+
+Theorem C09_document_monotone : forall cat ss ss', incl ss ss' ->
+  incl (allowed_actions cat ss) (allowed_actions cat ss') /\ incl (iam_actions cat ss) (iam_actions cat ss').
+Proof. exact doc_mono. Qed.
+Print Assumptions C09_document_monotone.
+
+Theorem C09_document_non_allow_ignored : forall cat ss s, is_allow s = false ->
+  allowed_actions cat (s :: ss) = allowed_actions cat ss.
+Proof. exact doc_non_allow_ignored. Qed.
+Print Assumptions C09_document_non_allow_ignored.
